@@ -132,3 +132,54 @@ def implied2(conds, pos, neg):
         return a
     b = implied(conds, neg)
     return None if b is None else not b
+
+
+def entailed(conds, pos, neg=None, max_atoms=12):
+    """What the branch history as a whole entails about a fact, by propositional reasoning over its tests (not / and / or):
+    `(A and B)` not taken and `A` taken entail `not B`.  conds: (resolved test, outcome) pairs; pos(expr) recognises the fact, neg(expr) its
+    negation.  Every other maximal non-boolean sub-expression is an independent atom.  True / False when all assignments that reproduce the
+    recorded outcomes agree on the fact, None otherwise (or when there are too many atoms / no such assignment)."""
+    import ast as _ast
+    import itertools
+    atoms = {}
+
+    def key(t):
+        if pos(t):
+            return ('F', True)
+        if neg is not None and neg(t):
+            return ('F', False)
+        k = _ast.dump(t)
+        atoms.setdefault(k, len(atoms))
+        return (k, True)
+
+    def build(t):
+        if isinstance(t, _ast.UnaryOp) and isinstance(t.op, _ast.Not):
+            return ('not', build(t.operand))
+        if isinstance(t, _ast.BoolOp):
+            return ('and' if isinstance(t.op, _ast.And) else 'or', [build(v) for v in t.values])
+        return ('atom',) + key(t)
+    trees = [(build(t), o) for t, o in conds if not isinstance(t, str) and isinstance(o, bool)]
+    names = sorted(atoms, key=atoms.get)
+    if len(names) > max_atoms:
+        return None
+
+    def ev(n, env):
+        if n[0] == 'not':
+            return not ev(n[1], env)
+        if n[0] == 'and':
+            return all(ev(x, env) for x in n[1])
+        if n[0] == 'or':
+            return any(ev(x, env) for x in n[1])
+        v = env[n[1]]
+        return v if n[2] else not v
+    seen = set()
+    for fv in (True, False):
+        for vals in itertools.product((True, False), repeat=len(names)):
+            env = dict(zip(names, vals))
+            env['F'] = fv
+            if all(ev(tr, env) == o for tr, o in trees):
+                seen.add(fv)
+                break
+    if len(seen) == 1:
+        return next(iter(seen))
+    return None
